@@ -6,7 +6,7 @@ from typing import Optional
 from vf import assume, concrete, forked, verdict
 from vf import stubs
 from vf.detloop import DetLoop, Hang, Scheduler
-from vf.oracles.spec_execute import spec_execute
+from vf.oracles.spec_execute import landings, spec_execute
 
 import graphql.type.scalars as scalars
 import graphql.type.definition as definition
@@ -189,7 +189,9 @@ def same_response(real, spec) -> bool:
     _ok, data, errors, _calls = spec
     if real.data != data:
         return False
-    return sorted((tuple(e.path) for e in (real.errors or [])), key=repr) == errors
+    # compared as nulled positions: with awaitable resolvers a sibling below an already nulled
+    # parent is cancelled and may not get to report its own error
+    return landings(real.data, [tuple(e.path) for e in (real.errors or [])]) == landings(data, errors)
 
 
 def one_to_one(n: int, k0: int, k1: int, k2: int, id0: int, id1: int, fail_at: int, room: Optional[int], c0: int, c1: int, c2: int,
